@@ -170,9 +170,6 @@ PROPS["C02"] = {"jobs": c02_jobs, "assumptions": COMMON_ASSUME + [
     "termination: the message loop carries an unwinding assertion with bound (N-8)/16+2"],
     "level": "bounded symbolic model checking with CBMC pointer/bounds checks on every dereference of the real decode path"}
 
-PROPS["DBG"] = {"jobs": lambda: [Job("dec.cpp", "h_dec_fresh", defs={"N": 24, "VER": 1, "NOTAKE": 1}, unwind=100, unwindset=dec_unwindset(24), in_max=60, mem_gb=6),
-   Job("dec.cpp", "h_dec_fresh", defs={"N": 32, "VER": 1, "NOTAKE": 1}, unwind=100, unwindset=dec_unwindset(32), in_max=80, mem_gb=6),
-   Job("dec.cpp", "h_dec_fresh", defs={"N": 32, "VER": 1, "NOTAKE": 1}, unwind=100, unwindset=dec_unwindset(32), in_max=80, mem_gb=6, mem=False)], "assumptions": [], "level": "debug"}
 
 
 # ------------------------------------------------------------------ C04 wire fidelity
@@ -395,3 +392,56 @@ def c14_jobs():
 
 PROPS["C14"] = {"jobs": c14_jobs, "assumptions": COMMON_ASSUME + ["payload lengths, the operation and presence of a payload object are concrete shape parameters"],
                 "level": "bounded symbolic model checking of copy/move/assign/compare on packets and payloads built from symbolic messages"}
+
+
+# ------------------------------------------------------------------ C16 status tracker
+def c16_op(kind, d=0, i=0):
+    return {"cm": 0, "if": 1, "data": 2, "rmdev": 3, "rmif": 4, "clear": 5, "vstat": 6}[kind] * 16 + d * 4 + i
+
+
+def c16_seq(ops):
+    d = {"NOPS": len(ops)}
+    for k, o in enumerate(ops):
+        d["OP%d" % k] = o
+    return d
+
+
+def c16_jobs():
+    import itertools
+    import os
+    import random
+    o = c16_op
+    quick = [
+        [o("cm", 0), o("if", 0, 0), o("if", 0, 1), o("rmif", 0, 0), o("if", 0, 1), o("if", 0, 0)],     # swap-with-last, then updates again
+        [o("cm", 0), o("cm", 1), o("cm", 2), o("rmdev", 0), o("cm", 1), o("cm", 0)],                  # which device survives the swap
+        [o("if", 0, 0), o("cm", 0), o("if", 0, 0), o("data", 0), o("cm", 0)],                         # interface status before device status
+        [o("cm", 0), o("if", 1, 0), o("data", 1), o("vstat", 1), o("rmdev", 1), o("rmif", 1, 0)],     # unknown devices change nothing
+        [o("cm", 0), o("if", 0, 0), o("cm", 1), o("if", 1, 0), o("rmdev", 0), o("if", 1, 1)],
+        [o("cm", 0), o("if", 0, 2), o("clear"), o("if", 0, 2), o("cm", 0), o("if", 0, 2)],
+        [o("cm", 2), o("if", 2, 0), o("if", 2, 1), o("if", 2, 2), o("rmif", 2, 1), o("rmif", 2, 2)],
+        [o("cm", 0), o("cm", 1), o("rmdev", 1), o("rmdev", 0), o("cm", 1), o("if", 1, 1)],
+        [o("cm", 0), o("if", 0, 0), o("rmdev", 0), o("cm", 0), o("vstat", 0), o("if", 0, 1)],         # removed device comes back without its interfaces
+        [o("cm", 1), o("cm", 1), o("if", 1, 0), o("if", 1, 0), o("cm", 1), o("data", 1)],             # latest wins
+    ]
+    alphabet = [o("cm", d) for d in (0, 1)] + [o("if", d, i) for d in (0, 1) for i in (0, 1)] + [o("data", 0), o("rmdev", 0), o("rmdev", 1), o("rmif", 0, 0), o("rmif", 0, 1), o("clear")]
+    thorough = [list(p) for n in (1, 2) for p in itertools.product(alphabet, repeat=n)]
+    rnd = random.Random(int(os.environ.get("VERIF_SEED", "0") or 0))
+    full = [o(k, d, i) for k in ("cm", "if", "data", "rmdev", "rmif", "vstat") for d in (0, 1, 2) for i in (0, 1, 2)] + [o("clear")]
+    for _ in range(120):
+        thorough.append([rnd.choice(full) for _ in range(rnd.choice((4, 5, 6)))])
+    jobs, seen = [], set()
+    for tier, seqs in (("quick", quick), ("thorough", thorough)):
+        for ops in seqs:
+            if tuple(ops) in seen:
+                continue
+            seen.add(tuple(ops))
+            jobs.append(Job("c16.cpp", "h_status", defs=c16_seq(ops), unwind=40, in_max=24 * len(ops) + 8, mem_gb=3, tier=tier,
+                            sym="payload contents of every packet (the tracker never branches on them); ids and identity tags are concrete",
+                            outside="more than 3 devices / 3 interfaces per device, sequences longer than 6 operations; ids are concrete representatives (10, 0xFFFF, 0 / 7, 0xFFFFFFFF, 0)"))
+    return jobs
+
+
+PROPS["C16"] = {"jobs": c16_jobs, "assumptions": COMMON_ASSUME + [
+    "operation sequences are concrete shapes: hand-picked sequences (quick), all sequences of length <= 2 over a 13-operation alphabet plus 120 VERIF_SEED-chosen sequences of length 4-6 (thorough); packet contents are symbolic",
+    "the oracle is a ghost map kept by the harness (device -> latest tag, interface -> latest tag), compared as a map (entry order is not part of the property)"],
+    "level": "bounded symbolic model checking of operation sequences on the real Status object against a ghost map"}
